@@ -782,6 +782,10 @@ class BaseImage(metaclass=ImageMeta):
                     except (KeyboardInterrupt, Exception):
                         self._handle_interrupted_draw()
                         raise
+            except KeyboardInterrupt:
+                # Animations end silently, even if interrupted before the first frame
+                if not animation:
+                    raise
             finally:
                 # Reset color and show the cursor
                 print(SGR_DEFAULT, SHOW_CURSOR * sys.stdout.isatty(), sep="")
